@@ -10,6 +10,7 @@
 import Rend.Props.C08
 import Rend.Server.Loop
 import Rend.Proofs.OnlyResp
+import Rend.Proofs.Progress
 
 namespace Rend.Props.C12
 open Rend
@@ -311,5 +312,55 @@ example : ¬ Paired [.acquire 1 false, .acquire 2 false, .release 2 false, .rele
   intro h; cases h
 example : ¬ Paired [.acquire 1 false] := by
   intro h; cases h
+
+/-! ### No deadlock, over the scheduler semantics
+
+  The theorems above give "one lock at a time per connection, released on every path".  Over the
+  scheduler semantics of `Proofs/Serial.lean` / `SerialMR.lean` (any number of connections; a
+  critical section = `Lock()` of the key's stripe, the section's backend requests and responder
+  calls one per step, `Unlock()`), that yields progress for EVERY configuration — reachable or
+  not, whatever the programs inside the sections are. -/
+
+/-- **A lock holder is never blocked and can always finish**: from any configuration, a
+    connection inside its critical section reaches the end of it — its lock released — by its own
+    steps alone, whatever state the other connections are in (exclusive locks). -/
+theorem C12_holder_finishes {α : Type} (now : Nat) (thr : Nat → Conc.Thread α) (i : Nat) (p : Prog OEv α)
+    (c : Conc.Conf α) (evs : List OEv) (h : c.ts i = .running p evs) :
+    ∃ sched c' a evs', Conc.Exec now thr c sched c' ∧ Conc.OnlyBy i sched ∧ c'.ts i = .done a evs' :=
+  Conc.holder_finishes now thr i p c evs h
+
+/-- …and while it is kept waiting, the steps of the others leave it where it is. -/
+theorem C12_others_keep_holder {α : Type} (now : Nat) (thr : Nat → Conc.Thread α) (c c' : Conc.Conf α) (s : Conc.Step)
+    (i : Nat) (p : Prog OEv α) (evs : List OEv) (h : c.ts i = .running p evs) (hs : Conc.Step1 now thr c s c')
+    (hne : s ≠ .act i ∧ s ≠ .rel i) : c'.ts i = .running p evs :=
+  Conc.others_keep_holder now thr c c' s i p evs h hs hne
+
+/-- **No deadlock (exclusive locks: write locks, single-reader mode).**  Every configuration in
+    which some connection has not finished admits a step. -/
+theorem C12_no_deadlock {α : Type} (now : Nat) (thr : Nat → Conc.Thread α) (c : Conc.Conf α)
+    (h : ∃ i, ∀ a evs, c.ts i ≠ .done a evs) : ∃ s c', Conc.Step1 now thr c s c' :=
+  Conc.no_deadlock now thr c h
+
+/-- The same with shared read locks (multi-reader mode). -/
+theorem C12_holder_finishes_shared_reads (now : Nat) (thr : Nat → Conc.CThread) (i : Nat) (p : Prog OEv (HRes Unit))
+    (c : Conc.Conf (HRes Unit)) (evs : List OEv) (h : c.ts i = .running p evs) :
+    ∃ sched c' a evs', Conc.ExecR now thr c sched c' ∧ Conc.OnlyBy i sched ∧ c'.ts i = .done a evs' :=
+  Conc.holder_finishesR now thr i p c evs h
+
+theorem C12_no_deadlock_shared_reads (now : Nat) (thr : Nat → Conc.CThread) (c : Conc.Conf (HRes Unit))
+    (h : ∃ i, ∀ a evs, c.ts i ≠ .done a evs) : ∃ s c', Conc.StepR now thr c s c' :=
+  Conc.no_deadlockR now thr c h
+
+/-- Non-vacuity: the lock does block — with connection 0 inside a critical section of stripe 5,
+    connection 1 (same stripe) is refused its lock, yet the configuration is not stuck. -/
+example : let thr : Nat → Conc.Thread Unit := fun _ => { key := [], stripe := 5, body := .ret () }
+    let c : Conc.Conf Unit := { w := {}, ts := fun j => if j = 0 then .running (.ret ()) [] else .idle }
+    (¬ ∃ c', Conc.Step1 0 thr c (.acq 1) c') ∧ ∃ s c', Conc.Step1 0 thr c s c' := by
+  intro thr c
+  constructor
+  · rintro ⟨c', h⟩
+    cases h with
+    | acq _ _ hfree => exact hfree 0 (.ret ()) [] rfl rfl
+  · exact C12_no_deadlock 0 thr c ⟨1, by intro a evs h; simp [c] at h⟩
 
 end Rend.Props.C12
